@@ -8,7 +8,7 @@
      get_neighbour_info (+ _create_empty_info)           -> neighbour_info
      get_sample_from_neighbour_info, _get_empty_sample,
      _extract_resample_result ('nn' branch), _prepare_result,
-     _remask_data                                        -> get_sample
+     _remask_data, np.ma.masked_equal                    -> get_sample
      resample_nearest / _resample                        -> resample_nn
 
    The metric is a finite table [d2 : target index -> source index -> Z] of EXACT squared chord
@@ -162,20 +162,21 @@ Section NN.
       let fillv := match fill with Some f => f | None => sentinel end in
       let n := count_true vin in                                           (* valid_input_size *)
       let fillrow := repeat fillv W in
-      (* index_mask = (index_array == n); result = new_data[where(mask, 0, idx)]; result[mask] = fill;
-         undetermined[valid_output_index] = index_mask  (second component) *)
-      let res := map (fun i => if (i =? n)%nat then (fillrow, true) else (nth i new_data fillrow, false)) idx in
-      (* full_result = np.full(.., fill); full_result[valid_output_index] = result; undetermined starts as ones *)
-      let full := scatter vout res (fillrow, true) in
+      (* index_mask = (index_array == n); result = new_data[where(mask, 0, idx)]; result[mask] = fill *)
+      let res := map (fun i => if (i =? n)%nat then fillrow else nth i new_data fillrow) idx in
+      (* full_result = np.full(.., fill); full_result[valid_output_index] = result *)
+      let full := scatter vout res fillrow in
       (* _prepare_result: reshape, _remask_data (second half of the channels != 0 is the mask) *)
       let cells := if is_masked
-                   then map (fun ru => (firstn kk (fst ru), map (fun v => negb (veqb v vzero)) (skipn kk (fst ru)), snd ru)) full
-                   else map (fun ru => (fst ru, repeat false kk, snd ru)) full in
-      (* fill_value None: mask | undetermined *)
+                   then map (fun row => (firstn kk row, map (fun v => negb (veqb v vzero)) (skipn kk row))) full
+                   else map (fun row => (row, repeat false kk)) full in
+      (* fill_value None: np.ma.masked_equal(result, sentinel) -- masks EVERY element equal to the sentinel *)
       let cells' := if use_mf
-                    then map (fun c => (fst (fst c), map (orb (snd c)) (snd (fst c)))) cells
-                    else map fst cells in
-      mk_sample (tshape ++ chan) dtype cells' (is_masked || use_mf).
+                    then map (fun c => (fst c, map2 orb (snd c) (map (fun v => veqb v fillv) (fst c)))) cells
+                    else cells in
+      (* _remask_data drops a trailing channel dimension of length 1, also for (n,1) multi-channel input *)
+      let suffix := if is_masked then (if (kk =? 1)%nat then [] else [Z.of_nat kk]) else chan in
+      mk_sample (tshape ++ suffix) dtype cells' (is_masked || use_mf).
 
   (* resample_nearest = get_sample_from_neighbour_info o get_neighbour_info *)
   Definition resample_nn (knn : list nat -> nat -> nat) (tshape : list Z) (dtype : D) (multi : bool) (k : nat)
